@@ -246,13 +246,40 @@ def query_layer(ctx, sess):
                 if err.strip() or out != want:
                     ctx.record_violation('shell-output-differs-from-api-rendering', 'settings %s; %s: shell %r ... api %r ... err %r' % (
                         sess.settings_line(), q, out[:200], want[:200], err[:200]), payload={'query': q})
+    # an empty result under every format x numberify (numberify also rewrites the description)
+    for fmt in ('csv', 'text'):
+        for nb in ('true', 'false'):
+            sess.run('.set format %s' % fmt)
+            sess.run('.set numberify %s' % nb)
+            for q in ("SELECT account, position, balance FROM #postings WHERE account = 'nothing'",
+                      "SELECT account, sum(position) AS total, count(*) AS n WHERE account = 'nothing' GROUP BY account"):
+                out, err = sess.run(q)
+                ctx.evaluations += 1
+                ctx.count('empty-x-format-x-numberify')
+                try:
+                    want = render_api(sess, q)
+                except Exception as exc:  # noqa: BLE001
+                    want = 'EXC:' + type(exc).__name__
+                if err.strip() or out != want:
+                    ctx.record_violation('shell-output-differs-from-api-rendering', 'settings %s; %s: shell %r ... api %r ... err %r' % (
+                        sess.settings_line(), q, out[:200], want[:200], err[:200]), payload={'query': q})
+    sess.run('.set numberify false')
     # empty text result prints "(empty)"
     sess.run('.set format text')
     out, err = sess.run("SELECT date FROM #postings WHERE account = 'nothing'")
     if out != '(empty)\n':
         ctx.record_violation('empty-result-marker', 'empty text result printed %r' % out)
     # named queries
-    queries = dict(sess.shell.queries)
+    # (read from the ledger, not from the shell: of several query directives with one name the first is the named query,
+    # the later ones are reported as duplicates)
+    queries = {}
+    for e in sess.shell.context.tables['entries'].entries if hasattr(sess.shell.context.tables.get('entries'), 'entries') else []:
+        if type(e).__name__ == 'Query':
+            queries.setdefault(e.name, e)
+    if not queries:
+        raise RuntimeError('no named queries found in the ledger of the session')
+    if set(queries) != set(sess.shell.queries):
+        ctx.record_violation('named-queries-extraction', 'the shell knows %r, the ledger defines %r' % (sorted(sess.shell.queries), sorted(queries)))
     for name, qd in sorted(queries.items()):
         out, err = sess.run('.run %s' % name)
         ctx.evaluations += 1
@@ -348,12 +375,20 @@ def cli_layer(ctx, text_ok, text_err):
             ctx.record_violation('cli-no-errors-option-ignored', '-q still reports: %r' % e2[:200])
 
 
+DUPLICATE_QUERIES = """
+2021-05-05 query "dup" "SELECT account, sum(position) AS total WHERE account ~ 'Assets' GROUP BY account ORDER BY account"
+2021-06-06 query "dup" "SELECT account, count(*) AS n GROUP BY account ORDER BY account"
+2021-07-07 query "dup" "SELECT date, narration FROM year >= 1900"
+"""
+
+
 def run(ctx):
     rng = ctx.rng
     n = 20 if ctx.thorough() else 6
     for k in range(n):
         text, entries, errors, options = ledgers.gen_ledger(rng, ntxn=rng.range(5, 12))
         text = text.replace('document', 'note').replace('.pdf"', '"')  # keep the ledger free of load errors
+        text += DUPLICATE_QUERIES
         for t in range(10 if ctx.thorough() else 6):
             sess = Session(text)
             try:
